@@ -280,6 +280,7 @@ pub fn run(out: &mut Out, thorough: bool, seed: u64) {
         } else {
             invalid.push(vec![fe(2)]);
         }
+        invalid.extend(crate::c02::edge_defects(&mut rng, &crate::c02::lang_hist(len)));
         run_type(out, &mut rng, &h, &spec, valid, invalid, thorough);
     }
     // SumVec
@@ -291,11 +292,18 @@ pub fn run(out: &mut Out, thorough: bool, seed: u64) {
         v[0] = fe(2);
         let mut v2 = s.encode_measurement(&vec![0; len]).unwrap();
         let n = v2.len();
-        v2[n - 1] = rand_elem::<F128>(&mut rng) + fe(2);
+        // a non-bit: `rand_elem` also returns lattice values such as p - 1 and p - 2, for which `+ 2` IS a bit
+        v2[n - 1] = loop {
+            let x = rand_elem::<F128>(&mut rng) + fe(2);
+            if x != F128::zero() && x != F128::one() {
+                break x;
+            }
+        };
         run_type(out, &mut rng, &s, &spec, valid, vec![v, v2], thorough);
     }
     // MultihotCountVec
-    for (len, maxw, chunk) in [(3usize, 1usize, 2usize), (5, 3, 3), (4, 4, 7), (6, 2, 1)] {
+    // chunk lengths that divide the number of buckets but not the encoded length, and the reverse
+    for (len, maxw, chunk) in [(3usize, 1usize, 2usize), (5, 3, 3), (4, 4, 7), (6, 2, 1), (4, 2, 4), (4, 2, 2), (6, 3, 3), (5, 1, 3)] {
         let m = MultihotCountVec::<F128, PS>::new(len, maxw, chunk).unwrap();
         let bw = bits_of(maxw as u128);
         let spec = format!("mhot:{}:{}:{}:{}", len, bw, last_weight(maxw as u128), chunk);
@@ -311,10 +319,12 @@ pub fn run(out: &mut Out, thorough: bool, seed: u64) {
         // non-bit entry
         let mut bad2 = m.encode_measurement(&vec![false; len]).unwrap();
         bad2[0] = fe(3);
-        run_type(out, &mut rng, &m, &spec, valid, vec![bad, bad2], thorough);
+        let mut invalid = vec![bad, bad2];
+        invalid.extend(crate::c02::edge_defects(&mut rng, &crate::c02::lang_mhot(len, maxw)));
+        run_type(out, &mut rng, &m, &spec, valid, invalid, thorough);
     }
-    // L1BoundSum
-    for (max, mlen, chunk) in [(7u128, 4usize, 3usize), (1, 2, 1), (100, 3, 4), (7, 4, 7), (3, 2, 5), (1, 3, 3)] {
+    // L1BoundSum (chunk lengths that divide the encoded length, the vector length only, neither; remainder one)
+    for (max, mlen, chunk) in [(7u128, 4usize, 3usize), (1, 2, 1), (100, 3, 4), (7, 4, 7), (3, 2, 5), (1, 3, 3), (7, 4, 4), (3, 6, 3), (7, 2, 2)] {
         let l = L1BoundSum::<F128, PS>::new(max, mlen, chunk).unwrap();
         let spec = format!("l1:{}:{}:{}:{}", mlen, bits_of(max), last_weight(max), chunk);
         let mut one = vec![0u128; mlen];
@@ -340,6 +350,8 @@ pub fn run(out: &mut Out, thorough: bool, seed: u64) {
             bad3[n - 1] = fe::<F128>(max) * fe::<F128>(last_weight(max)).inv();
             invalid.push(bad3);
         }
+        // the only defect is ONE entry that is not a bit (solved from the norm relation), at the edges of the vector
+        invalid.extend(crate::c02::edge_defects(&mut rng, &crate::c02::lang_l1(max, mlen)));
         run_type(out, &mut rng, &l, &spec, valid, invalid, thorough);
     }
     out.samples = out.ops.iter().step_by(out.ops.len() / 12 + 1).map(|s| s.chars().take(260).collect()).collect();
